@@ -293,6 +293,12 @@ pub fn gen_doc(rng: &mut Rng, ts: &TileSet) -> Doc {
 	if rng.chance(0.5) {
 		m.insert("data".into(), json!((0..rng.below(4)).map(|_| gen_string(rng)).collect::<Vec<_>>()));
 	}
+	if rng.chance(0.15) {
+		// a document of some size (a long licence text, a legend): 9 .. 120 KB, not compressible to nothing
+		let n = *rng.pick(&[9_000usize, 20_000, 120_000]);
+		let text: String = (0..n / 8).map(|i| format!("{:07x} ", rng.next_u64() as u32 as u64 ^ i as u64)).collect();
+		m.insert("legend".into(), json!(text));
+	}
 	if rng.chance(0.4) {
 		// byte values: the borders of the range as often as the inside
 		let v = if rng.bool() { *rng.pick(&[0u64, 255, 255, 1, 31, 32, 127, 128, 254]) } else { rng.below(256) };
@@ -355,7 +361,8 @@ pub fn gen_doc(rng: &mut Rng, ts: &TileSet) -> Doc {
 			l.insert("id".into(), json!(format!("layer{i}")));
 			l.insert("fields".into(), Value::Object(fields));
 			if rng.bool() {
-				l.insert("description".into(), json!(gen_string(rng)));
+				// (tippecanoe-style metadata writes an empty description for every layer)
+				l.insert("description".into(), if rng.chance(0.35) { json!("") } else { json!(gen_string(rng)) });
 			}
 			if rng.bool() {
 				l.insert("minzoom".into(), json!(rng.below(10)));
